@@ -8,6 +8,8 @@ import CoupeModel.Driver.Util
   run"; the op line carries the digest of the outcome under one thread and the
   driver echoes `same <digest>`.  The implementation prints `differs …` when any
   pool size or repetition deviates.
+* `frame …`: the frame (matrix and rotated points) of a large near-isotropic cloud is a function
+  of the input only; the op line carries the digest under one thread, the driver echoes it.
 * `parsum`, `bbox`, `rcbsplit`, `mjsplit`: the skeletons of `Model/Par.lean` are
   evaluated along several split trees (sequential, balanced, left comb, right
   comb, pseudo-random); they must agree among themselves (else
@@ -239,6 +241,17 @@ def handle (toks : List String) : String :=
       else "same " ++ rest.getLast!
     else "bad-op"
   | "dual" :: rest => if rest.length == 6 then "same " ++ rest.getLast! else "bad-op"
+  | "frame" :: rest =>
+    -- `frame <dim> <n> <seed> <shape> <digest>`: the oriented-bounding-box frame is a function of
+    -- the input only – `inertia_matrix` sums fixed 4096-point blocks sequentially and adds the block
+    -- sums in block order (a fixed expression in the points, whatever rayon does; in the exact case
+    -- `inertia_entry_schedule_free`), the eigen-decomposition and the reflection are sequential.
+    -- So every pool size yields the bits seen under one thread: the claim is `same <digest>`.
+    if rest.length == 5 ∧ (rest.take 4).all (fun x => (parseNat? x).isSome) ∧
+        (rest.head? == some "2" ∨ rest.head? == some "3") ∧
+        ((rest[1]?.bind parseNat?).getD 0 ≤ 400000) ∧ ((rest[3]?.bind parseNat?).getD 99 < 6) then
+      "same " ++ rest.getLast!
+    else "bad-op"
   | "parsum" :: rest => handleParsum rest
   | "bbox" :: rest => handleBbox rest
   | "rcbsplit" :: rest => handleRcbsplit rest
